@@ -34,6 +34,7 @@ time 2^64−1) and the negation witness at 2^64−1.
 import SerfProofs.Lemmas.EventBuf
 import SerfModel.Gen.BufLocks
 import SerfModel.Gen.BufHandler
+import SerfModel.Gen.PushPullReplay
 import SerfProofs.Lemmas.BufHandlerIR
 namespace SerfProofs.C05
 open SerfModel.Atomic SerfModel.EventBuf SerfProofs.EventBuf
@@ -542,5 +543,14 @@ theorem C05_handler_body_is_model (ctx : SerfModel.BufHandlerIR.Ctx) (b : Buf α
         = decide ((handle b lt x).2 = .delivered) := by
   rw [C05_gen_handler_body]
   exact SerfProofs.BufHandlerIR.ueBody_is_handle ctx b lt x
+
+/-- **Source tie (regenerated on every run): the user-event part of
+`MergeRemoteState`.**  The guard and argument of the remote-clock witness, the
+join-ignore raise of the cut-off (outer guard `isJoin && eventJoinIgnore`, test
+`pp.EventLTime > eventMinTime`, assignment, under `eventLock`), the replay loop (every
+event of every non-nil slot through `handleUserEvent`, time from the slot, name and
+payload from the event) and the order witness → raise → replay are the ones
+`EventBuf.witnessRemote` / `raiseMin` / `flatten` / `stepIn` model. -/
+theorem C05_gen_replay_shape : SerfModel.Gen.PushPullReplay.shape = modelledReplayShape := by decide
 
 end SerfProofs.C05
